@@ -10,7 +10,7 @@ import numpy as np
 from hypothesis import strategies as st
 
 from .. import gen, genheat
-from ..recipe import abbreviate, build, solve
+from ..recipe import PRELUDES, solve_after_prelude, abbreviate, build, solve
 from ..refphys import G, P_CONV, RefFluid, gas_density, p_amb
 from ..runner import Finding, Outcome, derive_seed, run_given
 
@@ -29,7 +29,7 @@ EX = {"quick": 60, "thorough": 2500}
 @st.composite
 def case_strategy(draw, tier):
     if draw(st.integers(0, 3)) == 0:
-        rec = draw(genheat.heat_net(max_n=4 if tier == "quick" else 8, allow_oos=True))
+        rec = draw(genheat.heat_net(max_n=4 if tier == "quick" else 8, allow_oos=True, allow_makeup=True))
         opts = draw(genheat.heat_options(tight=draw(st.booleans())))
     else:
         focus = draw(st.sampled_from(["any", "any", "pumps", "compressors"]))
@@ -38,7 +38,9 @@ def case_strategy(draw, tier):
               "compressors": dict(gases_only=True, lift_bias=10, extra_edges=0, allow_parallel=False, max_eg=1)}.get(focus, {})
         rec, opts = draw(gen.hyd_case(max_n=9 if tier == "quick" else 25, **kw))
         opts["mode"] = "hydraulics"
-    return {"recipe": rec, "options": opts}
+    # one case in three is calculated on a net object with a history (see recipe.solve_after_prelude)
+    prelude = draw(st.sampled_from([None, None, None, None] + PRELUDES[:3] * 2 + PRELUDES[3:]))
+    return {"recipe": rec, "options": opts, "prelude": prelude}
 
 
 def _ok(a, b, rel=1e-9, abs_=1e-12):
@@ -47,14 +49,14 @@ def _ok(a, b, rel=1e-9, abs_=1e-12):
 
 def evaluate(case):
     rec, opts = case["recipe"], case["options"]
-    net = build(rec)
-    r = solve(net, **opts)
+    net, r = solve_after_prelude(rec, opts, case.get("prelude"))
     if not r.ok:
         return Outcome(discard=r.status)
     fl = RefFluid.get(rec["fluid"])
     f = []
     kinds = set()
-    labels = {"gas" if fl.is_gas else "liquid", "mode:" + opts["mode"], "tight" if "tol_m" in opts else "default_tol"}
+    labels = {"gas" if fl.is_gas else "liquid", "mode:" + opts["mode"], "tight" if "tol_m" in opts else "default_tol",
+              "history:" + str(case.get("prelude"))}
     pj, hj = net.res_junction.p_bar, net.junction.height_m
     thermal = opts["mode"] != "hydraulics"
     special = False
